@@ -14,6 +14,7 @@ var Registry = map[string]func(*core.Run){
 	"C03": CheckC03,
 	"C04": CheckC04,
 	"C07": CheckC07,
+	"C08": CheckC08,
 	"C10": CheckC10,
 	"C11": CheckC11,
 	"C09": CheckC09,
